@@ -107,6 +107,48 @@ def safe_str(e, n=160):
         return "<str() raised %s>" % type(e2).__name__
 
 
+class _Tee(object):
+    """a user's write-only capture of a standard stream: write() works, flush() may raise"""
+    def __init__(self, buf, flush_raises):
+        self._buf, self._flush_raises = buf, flush_raises
+
+    def write(self, text):
+        self._buf.write(text)
+        return len(text)
+
+    def flush(self):
+        if self._flush_raises:
+            raise OSError(32, "Broken pipe (flush of the user's stream object)")
+
+    def isatty(self):
+        return False
+
+
+@contextlib.contextmanager
+def stdio_variant(buf, kind):
+    """the cell runs with sys.stdout captured in [buf]; [kind] replaces stdout or stderr by an awkward object:
+    'out:flush' / 'err:flush' (flush() raises), 'out:closed' / 'err:closed' (a closed file), 'out:none' / 'err:none'"""
+    which, _, how = (kind or "out:plain").partition(":")
+    def make(capture):
+        if how == "flush":
+            return _Tee(capture, True)
+        if how == "closed":
+            f = io.StringIO()
+            f.close()
+            return f
+        if how == "none":
+            return None
+        return capture
+    old_out, old_err = sys.stdout, sys.stderr
+    try:
+        sys.stdout = make(buf) if which == "out" else buf
+        if which == "err":
+            sys.stderr = make(io.StringIO())
+        yield
+    finally:
+        sys.stdout, sys.stderr = old_out, old_err
+
+
 SCRIPTS = {
     # a valid script in latin-1 with a coding cookie: CPython runs it, pyflyby reads it as UTF-8
     "latin1": b"# -*- coding: latin-1 -*-\nzz_r = '\xe9'\nzz_s = len(zz_r)\n",
@@ -179,6 +221,19 @@ def drive(case, scratch):
     os.environ["PYFLYBY_PATH"] = os.path.join(scratch, "db.py")
     with_pf = case.get("with_pyflyby", True)
 
+    import signal
+    sig = case.get("signals")
+    if sig == "sigterm_handler":
+        signal.signal(signal.SIGTERM, lambda signum, frame: None)      # an application's own handler
+    elif sig == "sigterm_ign":
+        signal.signal(signal.SIGTERM, signal.SIG_IGN)
+    elif sig == "sigint_handler":
+        signal.signal(signal.SIGINT, lambda signum, frame: None)
+    elif sig == "sigquit_ign":
+        signal.signal(signal.SIGQUIT, signal.SIG_IGN)
+    elif sig == "faulthandler":
+        import faulthandler
+        faulthandler.enable()
     from IPython.terminal.ipapp import TerminalIPythonApp
     app = TerminalIPythonApp.instance()
     argv = ['--no-banner', '--quick', '--simple-prompt', '--colors=NoColor', '--no-confirm-exit',
@@ -257,7 +312,8 @@ def drive(case, scratch):
              "ast_own": [own(x) for x in asts], "cleanup_own": [own(x) for x in cls_],
              "line": [],
              "loaded": H.ip is not None and "pyflyby" in H.ip.extension_manager.loaded,
-             "attr": hasattr(H.ip, "_auto_importer")}
+             "attr": hasattr(H.ip, "_auto_importer"),
+             "dynimp_finder": sum(1 for f in sys.meta_path if (getattr(f, "__module__", None) or type(f).__module__ or "").startswith("pyflyby"))}
         if ai is not None:
             dis = []
             for f in ai._disablers[::-1]:
@@ -523,7 +579,7 @@ def drive(case, scratch):
         fired_in.clear()
         sys.setprofile(prof)
         try:
-            with contextlib.redirect_stdout(buf):
+            with stdio_variant(buf, case.get("stdio")):
                 if out["env"]["stdout_proxy"] is None:
                     out["env"]["stdout_proxy"] = type(sys.stdout).__module__.startswith("prompt_toolkit.")
                 if act in ("run", "runfile", "prun", "debugstmt"):
@@ -533,6 +589,7 @@ def drive(case, scratch):
                     err = res.error_in_exec or res.error_before_exec
                     r["result"] = repr(res.result)
                     r["error"] = type(err).__name__ if err is not None else None
+                    r["error_injected"] = err is not None and "injected at " in safe_str(err)
                 elif act == "inspect":
                     info = H.ip._ofind(text)
                     r["result"] = bool(info.found if hasattr(info, "found") else info["found"])
@@ -567,9 +624,12 @@ def drive(case, scratch):
         r["ns_removed"] = sorted(before - set(ns_names()))
         return r
 
+    ref_modules = {}
     for idx, op in enumerate(case["ops"]):
         ent = {}
         if op["op"] == "cell":
+            if not with_pf and ref_modules:
+                sys.modules.update(ref_modules)
             for stmt in case.get("pre_imports", {}).get(str(idx), []):
                 exec(stmt, H.ip.user_ns)
             ent["cell"] = do_cell(op)
@@ -600,7 +660,7 @@ def drive(case, scratch):
             import types
             m = types.ModuleType("pyflyby_autoimport_zz_reg")
             m.zz_reg = 41
-            sys.modules["pyflyby_autoimport_zz_reg"] = m
+            ref_modules["pyflyby_autoimport_zz_reg"] = m
         ent["snap"] = snapshot()
         out["trace"].append(ent)
     try:
